@@ -388,3 +388,39 @@ class PaginationBorders(Contract):
 
 
 UNITS = [PaginationBorders()]
+
+
+class ProcessPage(Contract):
+    """PageFeatureProcessor.process(document, page): the page's final body attributes are what _apply_pagination_borders computes for THIS
+    document and THIS page, and the same page object is returned (the renderer encodes the rows with page.final_body_attrs: C07 / C09)."""
+    target = "pagination/processor.py::PageFeatureProcessor.process"
+    serves = ["C07", "C09"]
+    models = [StrModel()]
+
+    def setup(self, c):
+        c.bind("self", c.alloc(RecObj("PageFeatureProcessor", {}, pyclass=c.cls("rtflite.pagination.processor", "PageFeatureProcessor"), fresh=False)))
+        doc = c.alloc(RecObj("RTFDocument", {}, fresh=False, origin="CALLER"))
+        page = c.alloc(RecObj("PageContext", {"final_body_attrs": None}, pyclass=c.cls("rtflite.pagination.strategies.base", "PageContext"), fresh=False))
+        c.bind("document", doc)
+        c.bind("page", page)
+        c.v.update(doc=doc, page=page)
+        c.ghost("computed", None)
+        self._v = c.v
+
+    @property
+    def summaries(self):
+        def borders(I, st, args, kwargs, node):
+            site = getattr(node, "lineno", None)
+            I.oblige(st, f"C07.borders_computed_for_this_document_and_this_page@L{site}",
+                     z3.BoolVal(isinstance(args[1], Ref) and args[1].oid == self._v["doc"].oid and isinstance(args[2], Ref) and args[2].oid == self._v["page"].oid), "post", site)
+            res = st.alloc(RecObj("TableAttributes", {}, fresh=True))
+            st.ghost["computed"] = res
+            return res
+        return {"PageFeatureProcessor._apply_pagination_borders": borders}
+
+    def ensures(self, c, out):
+        st = out.state
+        comp = st.ghost.get("computed")
+        fa = st.obj(c.v["page"]).fields.get("final_body_attrs")
+        return {"C09.the_pages_final_attributes_are_the_computed_ones": z3.BoolVal(isinstance(fa, Ref) and isinstance(comp, Ref) and fa.oid == comp.oid),
+                "returns_the_same_page": z3.BoolVal(isinstance(out.value, Ref) and out.value.oid == c.v["page"].oid)}
